@@ -67,7 +67,7 @@ def gen_scenario(rnd, k):
             t0 += 5 * 10**9
     rnd.shuffle(evs)
     return dict(events=evs, async_flag=(k % 2 == 1), custom=(k % 4 >= 2), mapping=MAPPINGS[(k // 4) % len(MAPPINGS)] if k % 4 >= 2 else None,
-                bs=rnd.choice([3, 1000]), padded=(k % 5 == 4), spaced=(k % 3 == 1))
+                bs=rnd.choice([3, 1000]), padded=(k % 5 == 4), spaced=(k % 3 == 1), globby=(k % 6 == 3))
 
 
 def ty_namer(sc):
@@ -86,6 +86,8 @@ SPACED = {1: "Order Processing", 2: "pay ments v2", 3: "Checkout"}
 
 def wf_namer(sc):
     """workflow names; in 'spaced' scenarios they contain blanks (the tool derives file names from them)"""
+    if sc.get("globby"):        # characters that are wildcards to glob / fnmatch; "etl[12]" as a pattern matches "etl1"
+        return lambda i: {1: "etl[12]", 2: "etl1", 3: "ingest[kafka]"}[i]
     return (lambda i: SPACED[i]) if sc.get("spaced") else S.s_name
 
 
@@ -278,7 +280,7 @@ def finish(out, scs, results, problems, both_failed, n_files, n_pairs, flaky):
         "rule": "random multi-workflow trace sets (1-3 workflows, 3-8 traces each from a template call tree with optional / alternative / "
                 "overlapping children and grandchildren; in half of the workflows the siblings run in a different temporal order from "
                 "trace to trace) through the real CLI: {default, custom} field-name mapping x {sync, async} "
-                "sequencing; a third of the scenarios use workflow names containing blanks; non-trivial = distinct data set",
+                "sequencing; a third of the scenarios use workflow names containing blanks, a sixth names containing [ ]; non-trivial = distinct data set",
         "samples": [dict(scenario={k: v for k, v in scs[0].items() if k != "events"}, n_events=len(scs[0]["events"]),
                          otel2puml=results[0].get("A"))],
         "traces_validated_against_impl": n_files, "workflow_diagram_pairs": n_pairs, "saved_job_files": n_files,
